@@ -153,9 +153,22 @@ def main(argv=None):
     byname = {i['name']: i for i in insts}
     with ctxm.Pool(min(a.jobs, 16)) as pool:
         pending = jobs
-        while pending:
+        hard = deadline + 90          # a single path may overrun the soft deadline; this is the hard stop
+        timed_out = False
+        while pending and not timed_out:
             nxt = []
-            for r in pool.imap_unordered(_worker, pending, chunksize=1):
+            it = pool.imap_unordered(_worker, pending, chunksize=1)
+            got = 0
+            while got < len(pending):
+                try:
+                    r = it.next(timeout=max(1.0, hard - time.time()))
+                except mp.TimeoutError:
+                    log('HARD TIMEOUT: %d instances did not finish within the budget; terminating workers' % (len(pending) - got))
+                    results.append({'instance': 'unfinished', 'error': 'hard timeout: %d instances unfinished' % (len(pending) - got)})
+                    timed_out = True
+                    pool.terminate()
+                    break
+                got += 1
                 results.append(r)
                 if 'error' in r: log('instance %s ERROR %s' % (r['instance'], r['error'][-400:]))
                 # an instance explored with a split depth hands back the sub-trees it did not enter
@@ -167,7 +180,7 @@ def main(argv=None):
                                _split=(sum(1 for e in pfx if len(e) > 2 and e[2] and e[0] != 'vals') + base.get('_split_step', 6)) if lvl < 3 else None)
                     byname[sub['name']] = sub
                     nxt.append((hname, sub, a.tier, seed, deadline))
-            if nxt: log('%d sub-trees dispatched' % len(nxt))
+            if nxt and not timed_out: log('%d sub-trees dispatched' % len(nxt))
             pending = nxt
     return hmod.finish(pid, a.tier, seed, results, load_known(pid), time.time() - t0, th, log)
 
